@@ -413,7 +413,7 @@ def run(chk):
     chk.rule("key-wiring", "a key is restored into the same attribute it was dumped from", 12)
     chk.rule("state-attrs", "every state-defining attribute is both dumped and assigned on load", 12)
     chk.rule("crash-points", "from every reachable abstract directory state holding a complete result file, a complete result "
-             "file exists after every file-system effect of dump_dict (exhaustive)", 4)
+             "file exists after every file-system effect of dump_dict (exhaustive)", 5)
     chk.rule("dump-completes", "normal completion of dump_dict leaves the primary result file complete", 1)
 
     io = IO(src, chk)
@@ -468,6 +468,7 @@ def run(chk):
     res = fs.explore(fi.node, is_result_writer)
     primary = res["primary"]
     chk.table("fs_model", {"primary": primary, "family": [short(p, primary) for p in res["family"]],
+                           "temporary_names (not counted as result files)": [short(p, primary) for p in res["temp_paths"]],
                            "start_states": [{short(k, primary): v for k, v in s.items()} for s in res["start_states"]],
                            "effects": sorted(fs.REMOVE | fs.MOVE | fs.COPY | fs.WRITE)})
     chk.extra["states"] = res["states"]
@@ -484,7 +485,7 @@ def run(chk):
         sk = ",".join(f"{short(k, primary)}={val}" for k, val in sorted(v["start"].items()))
         viol_by_start.setdefault(sk, []).append(v)
     for st in res["start_states"]:
-        if not any(v == fs.C for v in st.values()):
+        if not any(v == fs.C for k, v in st.items() if k not in res["temp_paths"]):
             continue
         sk = ",".join(f"{short(k, primary)}={val}" for k, val in sorted(st.items()))
         vs = viol_by_start.get(sk, [])
